@@ -15,7 +15,6 @@ MACROS = ['eval', 'n', 'if', 'map', 'for', 'foreach', 'while', 'let', 'format', 
 ESCAPE_ONLY = {
     'to_chr': 'HTML writes a numeric character reference, ASM the character itself',
     'space': 'HTML writes &#160;, ASM a space',
-    'expand': 'entry point of each writer: ASM strips the result, HTML passes the page directory through',
     'get_snapshot_name': 'accessor; ASM inlines the same expression',
     'warn': 'warnings only',
 }
@@ -116,6 +115,16 @@ def run(ctx):
         sa_, sh = strip_doc(am[a]), strip_doc(hm[a])
         sa_n = sa_.replace('self._snapshots[-1][1]', 'self.get_snapshot_name()')
         sh_n = sh.replace('self._snapshots[-1][1]', 'self.get_snapshot_name()')
+        if a == 'expand':
+            # entry point of each writer, also used by the shared parsers for nested macro arguments: the only admissible difference is
+            # that HTML passes the page directory through
+            norm = lambda t: t.replace(', cwd=None', '').replace(', cwd', '')
+            if norm(sa_n) == norm(sh_n):
+                ctx.ok({'method': a, 'identical up to': 'the page directory argument'})
+            else:
+                ctx.violation('writer.expand', 'skoolkit/skoolasm.py:%d vs skoolkit/skoolhtml.py:%d' % (am[a].lineno, hm[a].lineno),
+                              'the shared macro parsers expand nested arguments through writer.expand, and AsmWriter.expand (%s) differs from HtmlWriter.expand (%s) by more than the page directory: a nested result keeps its surrounding white space in HTML but loses it in ASM' % (sa_.strip()[:80], sh.strip()[:80]))
+            continue
         if sa_n == sh_n:
             ctx.ok({'method': a, 'identical': True})
         elif a in ESCAPE_ONLY:
